@@ -48,12 +48,13 @@ Section DefaultMode.
   Proof. apply foldableb_sound; [exact (wf_host_nodup A HA)|exact OK2]. Qed.
   Lemma dFB : foldable B.
   Proof. apply foldableb_sound; [exact (wf_host_nodup B HB)|exact OK3]. Qed.
-  Lemma dE3 h : is_H_h A h = true ->
-    In h (node_ids tpl) /\ forall k, adj A h k <> None \/ adj B h k <> None -> exists x, adj tpl h k = Some x.
+  Lemma dE3 h : is_H_h A h = true -> In h (node_ids tpl) ->
+    forall k, adj A h k <> None \/ adj B h k <> None -> exists x, adj tpl h k = Some x.
   Proof.
-    intros Hh. pose proof OK4 as H. rewrite forallb_forall in H.
-    specialize (H h (proj2 (h_nodes_h_spec A (wf_host_nodup A HA) h) Hh)). apply andb_prop in H. destruct H as [H1 H2].
-    split; [apply mem_spec; exact H1|]. rewrite forallb_forall in H2. intros k Hk.
+    intros Hh It. pose proof OK4 as H. rewrite forallb_forall in H.
+    specialize (H h (proj2 (h_nodes_h_spec A (wf_host_nodup A HA) h) Hh)).
+    apply mem_spec in It. rewrite It in H. rename H into H2.
+    rewrite forallb_forall in H2. intros k Hk.
     assert (K : forall (X : hostg), (forall e, In e (gedges X) -> In e (gedges A ++ gedges B)) -> adj X h k <> None -> exists x, adj tpl h k = Some x).
     { intros X HX Ne. destruct (adj X h k) as [o|] eqn:Ea; [|congruence]. unfold adj in Ea. apply find_edge_in in Ea.
       destruct Ea as (p & q & I & Hp). specialize (H2 _ (HX _ I)). simpl in H2.
@@ -117,7 +118,7 @@ Section DefaultMode.
     assert (E2 : forall n x, label A n = Some x -> 0 <= a_hc x).
     { intros n x Ex. destruct (in_ids_label B n (proj1 (pw_ids _ _ PW n) (label_some_in A n x Ex))) as [y Ey]. exact (proj2 (dE12 n x y Ex Ey)). }
     split.
-    - exact (pair_folded A B tpl R PW dFA dFB dE3 RH').
+    - exact (pair_folded A B PW dFA dFB).
     - exact (rule_describes_folded A B tpl rc R PW D E1 E2 dFA dFB dE3 RH' RN RCn RCi RCa' RCe).
   Qed.
 End DefaultMode.
